@@ -280,7 +280,7 @@ func init() {
 		Rule: "cases = worlds as in C05; per world 6 sequences of 30-200 steps over all segments: 60% postings lookups (PostingsList+Count+Iterator+Next/Advance sequence, sometimes stopped half way) passing as prealloc any PostingsList/PostingsIterator produced earlier in the sequence (other segment, other encoding 1-hit/general/empty incl. the shared empty singletons, half-consumed, previously ReplaceActual'ed), dictionaries kept per (segment, field); 10% stored-field visits (pooled context recycled across segments); 20% doc-value visits with one reader per segment kept for the whole sequence; 10% dictionary iterations with counts; " +
 			"oracle = the specification model for every answer (= what fresh objects return, as C05/C06/C07/C08 establish); evaluations = lookups; non-trivial = lookup reusing an object whose previous use had a different encoding or segment; distinct by (case, sequence, step)",
 		Assumptions: append([]string{"Advance targets are non-decreasing and greater than the last returned number", "ReplaceActual only right after creation with a subset, never on 1-hit lists", "a prealloc iterator is no longer used by the caller after it has been handed over"}, InputContract...),
-		Phases:      []runner.Phase{{Name: "reuse", Cases: cases(200, 6000), Run: c13Run}},
+		Phases:      []runner.Phase{{Name: "reuse", Cases: cases(2000, 50000), Run: c13Run}},
 		Floors: func(string) map[string]int64 {
 			return map[string]int64{"reuse_across_segments": 3000, "reuse_pl.1hit->general": 100, "reuse_pl.general->1hit": 100, "reuse_pi.1hit->general": 100, "reuse_pi.general->1hit": 100, "reuse_pl.general->empty": 20, "dv_reader_reused": 1000}
 		},
